@@ -83,8 +83,8 @@ def to_py(v):
         from decimal import Decimal
         return float(Decimal(int(v["dm"])).scaleb(-int(v["de"])))
     if t == "opaque":
-        from .drops import PlainObj
-        return PlainObj(v["s"])
+        from .drops import CallableObj, PlainObj
+        return CallableObj(v["s"]) if v["s"] == "CB" else PlainObj(v["s"])
     raise ValueError(f"cannot concretise {v!r}")
 
 
